@@ -383,6 +383,24 @@ def edge_facts(fn, br, truth):
     return g
 
 
+def fails_on_edge(fn, br, truth, success=0):
+    """every way from the edge (br taken with `truth`) to a return hands back something else than the success code - decided with
+    what taking the edge implies (if (rc != OK) break; ... return rc;)"""
+    fl = flow.Flow(fn, flow.Hooks())
+    fl.run(from_edge=(br, truth))
+    rets = fl.ret_states
+    if not rets:
+        return False
+
+    def excluded(av):
+        if av is None:
+            return False
+        if av[0] == "in":
+            return success not in av[1]
+        return success in av[1]
+    return all(excluded(av) for (i, p, av, f, tr) in rets)
+
+
 def fails_only(fn, start_block):
     """every way from `start_block` to a return hands back a negative constant (an error exit)"""
     rets = fn.rets()
